@@ -317,7 +317,7 @@ func cmpCase(r *hx.Rand, a string, v1, v2 []float64, alpha float64, alphaEqP boo
 		id, a, list(v1), list(v2), raw(alpha), ext, raw(old), raw(new), raw(c.P), c.N1, c.N2, raw(c.Alpha), wt,
 		raw(c21.P), raw(csh.P), raw(csc.P), k, hx.HexS(delta), hx.HexS(str), tag)
 	hx.Printf("obs %d p=%s n1=%d n2=%d alpha=%s warn=%s delta=%s str=%s\n", id, canon(c.P), c.N1, c.N2, canon(c.Alpha), wt, hx.HexS(delta), hx.HexS(str))
-	hx.Printf("sobs %d n=ok prange=ok sym=ok shuf=ok scale=ok exact=%s alpha=ok shown=ok delta=ok str=ok\n", id, exact)
+	hx.Printf("sobs %d n=ok prange=ok sym=ok shuf=ok scale=ok exact=%s alpha=ok warn=ok shown=ok delta=ok str=ok\n", id, exact)
 	id++
 }
 
